@@ -151,6 +151,13 @@ def add_edges(spec, rnd, uniform):
                 mid = pairs[1:-1]
                 rnd.shuffle(mid)
                 pairs = [pairs[0]] + mid + [pairs[-1]]
+            if len(pairs) >= 4 and rnd.random() < (0.6 if len(T) >= 10 else 0.35):
+                # nearly one-to-one: one or two edges are redirected onto a target that already has an edge (a convergent target among
+                # one-to-one wired ones; the group still has no more edges than targets)
+                for _ in range(rnd.randint(1, 2)):
+                    i, j = rnd.sample(range(len(pairs)), 2)
+                    pairs[i] = (pairs[i][0], pairs[j][1])
+                pairs = list(dict.fromkeys(pairs))
         elif pattern == 'all':
             pairs = [(a, b) for a in S for b in T]
         elif pattern == 'one_each':
